@@ -402,6 +402,17 @@ def run(seed, tier):
                         if max(a['std']) > max(a['cap'], first_std[0]) * (1 + 1e-12):
                             fail[0] = ('inadmissible', 'after update %d the width %r exceeds both the cap %r and the width it started with %r'
                                        % (info['i'] + 1, max(a['std']), a['cap'], first_std[0]))
+                    if kind == 'ss' and fail[0] is None and (getattr(info['prop'], 'boundaries', None) or 'angular' in name):
+                        # the bounded Sivia-Skilling families document a default cap of 1.49 x the largest boundary width: without one
+                        # the width grows like the square root of the number of acceptances and the rejection loop with it
+                        if first_std[0] is None:
+                            first_std[0] = max(b['std'])
+                        lim = 1.49 * (max(abs(w) for w in info['prop'].boundaries.values()) if getattr(info['prop'], 'boundaries', None)
+                                      else 2 * math.pi)
+                        if a.get('cap') is None and max(a['std']) > max(lim, first_std[0]) * (1 + 1e-9):
+                            fail[0] = ('inadmissible', 'after update %d the width %r exceeds 1.49 x the largest boundary width (%r) and the '
+                                       'width it started with (%r); the proposal holds no cap (max_std is %r)'
+                                       % (info['i'] + 1, max(a['std']), lim, first_std[0], getattr(info['prop'], 'max_std', None)))
                     if info['called'] and info['i'] % 7 == 0 and kind in ('veitch', 'ss', 'at', 'eig', 'kappa'):
                         t = adapt.coq_case(kind, b, a, info['accepted'], info['ar'], info['x'])
                         if t:
@@ -431,28 +442,29 @@ def run(seed, tier):
                 T = rng.choice([12, 30])
                 n = (T + 10) * k
                 hist = adapt.history(hk, n, rng)
-                reset_at = rng.choice([k + 1, 2 * k, 3 * k + 1, n // 2])
-                desc = dict(proposal=name, adaptation_duration=T, jump_interval=k, history=hk, steps=n, reset_before_step=reset_at)
-                fail = [None]
+                # (a reset before the proposal's own clock has reached its first step - a swap at iteration 1 - and later ones)
+                for reset_at in (k - 1, rng.choice([1, k + 1, 2 * k, 3 * k + 1, n // 2])):
+                    desc = dict(proposal=name, adaptation_duration=T, jump_interval=k, history=hk, steps=n, reset_before_step=reset_at)
+                    fail = [None]
 
-                def on_kstep(kind, b, a, info):
-                    out.evaluations += 1
-                    if fail[0] is not None:
-                        return
-                    if info['error'] is not None:
-                        fail[0] = 'update %d raised %r (jump interval %d, reset before step %d)' % (info['i'] + 1, info['error'], k, reset_at)
-                        return
-                    bad = admissible(kind, a)
-                    if bad:
-                        fail[0] = 'after update %d: %s (jump interval %d, reset before step %d)' % (info['i'] + 1, bad[0], k, reset_at)
-                adapt.drive(name, T, k, rng.choice([1, 2]), hist, rng, on_kstep, reset_at=reset_at)
-                out.count('slow_with_reset')
-                if fail[0]:
-                    flag = classify(name, 'raise', fail[0])
-                    if flag and any(h['flag'] == flag for h in out.known_hits):
-                        out.count('covered_by_known_' + flag)
-                    else:
-                        out.violations.append(dict(what='%s, history %s, duration %d: %s' % (name, hk, T, fail[0]), replay=desc))
+                    def on_kstep(kind, b, a, info):
+                        out.evaluations += 1
+                        if fail[0] is not None:
+                            return
+                        if info['error'] is not None:
+                            fail[0] = 'update %d raised %r (jump interval %d, reset before step %d)' % (info['i'] + 1, info['error'], k, reset_at)
+                            return
+                        bad = admissible(kind, a)
+                        if bad:
+                            fail[0] = 'after update %d: %s (jump interval %d, reset before step %d)' % (info['i'] + 1, bad[0], k, reset_at)
+                    adapt.drive(name, T, k, rng.choice([1, 2]), hist, rng, on_kstep, reset_at=reset_at)
+                    out.count('slow_with_reset')
+                    if fail[0]:
+                        flag = classify(name, 'raise', fail[0])
+                        if flag and any(h['flag'] == flag for h in out.known_hits):
+                            out.count('covered_by_known_' + flag)
+                        else:
+                            out.violations.append(dict(what='%s, history %s, duration %d: %s' % (name, hk, T, fail[0]), replay=desc))
         if len(out.violations) > 6:
             break
     # (a') matrix-valued state: positive semidefinite covariance through every update (AdaptM.v)
@@ -486,6 +498,30 @@ def run(seed, tier):
                     out.nontrivial.add(repr(desc))
                 if fail[0]:
                     out.violations.append(dict(what='%s, history %s, duration %d: %s' % (name, hk, T, fail[0]), replay=desc))
+    # (a''') targets far narrower in one parameter than in the other (widths 1e-6 : 1, as on a bounded domain with a sharply peaked
+    # likelihood): the learnt covariance is nearly singular, and still no update may raise and the matrices stay admissible
+    for name in sorted(adaptm.MFAMILIES):
+        for hk in ('always', 'random'):
+            T = 1000
+            spread = rng.choice([(1.0, 1e-6), (1.0, 1e-7)]) if hk == 'always' else rng.choice([(1.0, 1e-6), (1e-6, 1.0), (1.0, 1e-7)])
+            hist = adapt.history(hk, T + 5, rng)
+            desc = dict(proposal=name, adaptation_duration=T, history=hk, steps=T + 5, matrix_variant=True, position_spread=spread)
+            fail = [None]
+
+            def on_astep(kind, b, a, info):
+                out.evaluations += 1
+                if fail[0] is not None:
+                    return
+                if info['error'] is not None:
+                    fail[0] = 'update %d raised %r' % (info['i'] + 1, info['error'])
+                    return
+                bad = madmissible(kind, a)
+                if bad:
+                    fail[0] = 'after update %d: %s' % (info['i'] + 1, bad)
+            adaptm.drive(name, T, 1, 1, hist, hk, rng, on_astep, spread=spread)
+            out.count('matrix_anisotropic')
+            if fail[0]:
+                out.violations.append(dict(what='%s, history %s, duration %d, positions spread %s: %s' % (name, hk, T, spread, fail[0]), replay=desc))
     failing = core.run_coq_cases('C14', adaptm.HEADER, mterms, eval_fn='mfailing', per_file=600, tag='matrix')
     for f in failing[:10]:
         out.corr_failures.append(dict(note='AdaptM model and real _update disagree', case=mmeta[f[0]]))
